@@ -36,6 +36,9 @@ pub struct Job {
 }
 
 pub const CONSUMERS: [&str; 13] = ["next", "size_hint_next", "collect", "extend", "count", "fold", "last", "for_each", "nth", "count_by_value", "last_by_value", "fold_by_value", "collect_by_value"];
+/// not drawn at random: the first 200 next() calls only, for enumerations far too
+/// long to drain (a panic in a prefix is a panic of the whole)
+pub const CONSUMER_PREFIX: &str = "first_200";
 
 impl Job {
     pub fn to_json(&self) -> Value {
@@ -94,7 +97,7 @@ impl Job {
     /// state; factor 4 is slack so a terminating evaluator that yields
     /// duplicates (C02's business) is not reported here.
     pub fn call_budget(&self) -> u64 {
-        16 + 4 * self.scen.product().max(1).saturating_mul(self.positions().max(1))
+        self.scen.product().max(1).saturating_mul(self.positions().max(1)).saturating_mul(4).saturating_add(16)
     }
     pub fn has_empty_range(&self) -> bool {
         self.scen.players.iter().any(|p| p.distinct_len() == 0)
@@ -164,6 +167,17 @@ pub fn child_main() -> i32 {
                     Err(m) => return (0u64, 0u64, format!("panic:construct: {m}")),
                 };
                 let consumer = j2.consumer.clone();
+                if consumer == CONSUMER_PREFIX {
+                    let mut yields = 0u64;
+                    for calls in 1..=200u64 {
+                        match st.step_raw() {
+                            Ok(Some(_)) => yields += 1,
+                            Ok(None) => return (yields, calls, "end".to_string()),
+                            Err(m) => return (yields, calls, format!("panic:{m}")),
+                        }
+                    }
+                    return (u64::MAX, 200, "end".to_string());
+                }
                 if consumer == "next" || consumer == "size_hint_next" {
                     let mut yields = 0u64;
                     let mut calls = 0u64;
@@ -717,6 +731,69 @@ pub fn gen_jobs(vs: u64, tier: &str, profile: &str) -> Vec<Job> {
             }
         }
     }
+    // products beyond 2^32 (four to six wide ranges): far too long to drain, so only
+    // the first 200 next() calls are made. Every player's *first* combo (in the
+    // range's own iteration order) is made disjoint from the others', from the flop
+    // and from the first turn/river cards, so that those calls are a few hundred
+    // deals and not an astronomically long blocked run.
+    for sizes in [vec![256usize, 256, 256, 256], vec![300, 300, 300, 300], vec![256, 256, 256, 255], vec![700, 700, 700, 700], vec![150, 150, 150, 150, 150], vec![60, 60, 60, 60, 60, 60]] {
+        for _attempt in 0..200 {
+            let flop = gen_flop(&mut rng);
+            let players: Vec<RangeRecipe> = sizes.iter().map(|k| RangeRecipe::simple(sized_range(&mut rng, *k))).collect();
+            let scen = Scenario { flop, players };
+            let deck = deck_for(&flop);
+            let mut used: Vec<u8> = vec![flop[0], flop[1], flop[2], deck[0], deck[1]];
+            let mut ok = true;
+            for r in scen.build_ranges() {
+                match r.card_pairs().iter().next() {
+                    Some((cp, _)) => {
+                        let (a, b) = pair_codes(cp);
+                        if used.contains(&a) || used.contains(&b) {
+                            ok = false;
+                            break;
+                        }
+                        used.push(a);
+                        used.push(b);
+                    }
+                    None => ok = false,
+                }
+            }
+            if ok {
+                let id = jobs.len();
+                jobs.push(Job { id, class: "product_beyond_2_pow_32".to_string(), scen, scope: None, stack: MIB2, consumer: CONSUMER_PREFIX.to_string(), prelude: vec![] });
+                break;
+            }
+        }
+    }
+    // unusual weights: NaN, infinities, negatives, subnormals, values printing in
+    // exponent form, among ordinary ones, in ranges of 2..300 combos
+    let odd: [f32; 8] = [f32::NAN, f32::INFINITY, f32::NEG_INFINITY, -1.0, -0.0, 1.0e-40, 1.0e-10, 3.0e30];
+    let nodd = if quick { 40 } else { 600 };
+    for _ in 0..nodd {
+        let flop = gen_flop(&mut rng);
+        let np = rng.range(1, 3) as usize;
+        let victim = rng.usize_below(np);
+        let players: Vec<RangeRecipe> = (0..np)
+            .map(|i| {
+                let k = if i == victim { *rng.pick(&[2usize, 5, 20, 21, 30, 48, 64, 100, 300]) } else { rng_small(&mut rng) };
+                let mut e = sized_range(&mut rng, k);
+                if i == victim {
+                    // graded ordinary weights with one or two odd ones in between
+                    for (j, x) in e.iter_mut().enumerate() {
+                        x.2 = (((j % 7) as f32 + 1.0) / 8.0).to_bits();
+                    }
+                    for _ in 0..rng.range(1, 2) {
+                        let at = rng.usize_below(e.len());
+                        e[at].2 = odd[rng.usize_below(odd.len())].to_bits();
+                    }
+                }
+                RangeRecipe::simple(e)
+            })
+            .collect();
+        let scen = Scenario { flop, players };
+        let sc = bounded_scope(scen.product(), max_states / 4, FIRST);
+        push("unusual_weights", scen, sc, &mut jobs);
+    }
     // several evaluators on one worker thread: earlier ones (other flops) are
     // peeked at and abandoned, then one is drained; its players hold cards of
     // the earlier flops (state a change might keep per thread must not leak)
@@ -771,7 +848,7 @@ pub fn gen_jobs(vs: u64, tier: &str, profile: &str) -> Vec<Job> {
     }
     // a random consumer for the cheap jobs of the other classes
     for j in jobs.iter_mut() {
-        if j.class != "consumer_styles" && j.states() <= 150_000 && rng.chance(1, 2) {
+        if j.class != "consumer_styles" && j.consumer != CONSUMER_PREFIX && j.states() <= 150_000 && rng.chance(1, 2) {
             j.consumer = CONSUMERS[rng.usize_below(CONSUMERS.len())].to_string();
         }
     }
@@ -803,7 +880,7 @@ fn blocked_run_lower_bound(job: &Job) -> u64 {
             !pl.entries.is_empty() && pl.entries.iter().all(|e| e.0 == tc || e.1 == tc || e.0 == rc || e.1 == rc || job.scen.flop.contains(&e.0) || job.scen.flop.contains(&e.1))
         });
         if fully {
-            cur += prod;
+            cur = cur.saturating_add(prod);
             best = best.max(cur);
         } else {
             cur = 0;
@@ -876,7 +953,7 @@ fn minimise(profile: &str, job: &Job, okey: &str, watchdog: Duration) -> (Job, u
             pi += 1;
         }
         // simplest consumer
-        if best.consumer != "next" {
+        if best.consumer != "next" && best.consumer != CONSUMER_PREFIX {
             let mut c = best.clone();
             c.consumer = "next".to_string();
             if fails(&c, &mut tried) {
